@@ -16,7 +16,7 @@ import time
 VERIF = os.path.dirname(os.path.dirname(os.path.abspath(__file__)))
 REPO = os.environ.get("MB2_REPO", "/repo")
 DRIVER = os.path.join(VERIF, "driver", "target", "release", "mb2facts")
-CACHE = os.path.join(VERIF, ".cache")
+CACHE = os.environ.get("MB2_CACHE_DIR") or os.path.join(VERIF, ".cache")
 CRATES = ["multiboot2_common", "multiboot2", "multiboot2_header"]
 
 CFG_FLAGS = {
